@@ -60,8 +60,18 @@ var concSPS = []byte{
 
 const (
 	concFrameTicks = 18000 // 200 ms at 90 kHz
-	concDeadline   = 600 * time.Millisecond
 )
+
+// concDeadline is how long an op waits before it reports `blocked` / `unsettled`. In a passing
+// run no op ever waits that long (every op ends on an event), so the value only matters for
+// robustness against a loaded machine (generous in `gen` mode) and for the length of failing
+// runs (shorter when a single case is replayed by the shrinker).
+var concDeadline = func() time.Duration {
+	if len(os.Args) > 1 && os.Args[1] == "replay" {
+		return 800 * time.Millisecond
+	}
+	return 4 * time.Second
+}()
 
 // concStuckCases counts cases in which something did not come back within the deadline. Such
 // cases are failures already; to keep a failing run short the rest of a stuck case, and every
@@ -130,6 +140,7 @@ type concRunner struct {
 	closeHeld   bool
 	closeAt     string // start | before | after | done
 	writerHeld  bool
+	writerStuck bool
 	closed      bool // Close has returned
 	closeCalled bool
 	stuck       bool // some goroutine did not come back (only in failing runs)
@@ -354,6 +365,9 @@ func (r *concRunner) write(ws []string) []string {
 	if r.m == nil || r.writerHeld {
 		return []string{"bad-op"}
 	}
+	if r.writerStuck { // an earlier Write* call never came back: the single writer cannot call again
+		return []string{"w blocked"}
+	}
 	idr := concKV(ws, "f") == "i"
 	hold := concKV(ws, "hold") == "1"
 	woken := r.parkedReqs()
@@ -362,7 +376,14 @@ func (r *concRunner) write(ws []string) []string {
 		r.setHold("rot:beforeBroadcast")
 	}
 	r.writeDone = make(chan error, 1)
-	go func() { r.writeDone <- r.writeFrame(idr) }()
+	go func() {
+		defer func() {
+			if e := recover(); e != nil {
+				r.writeDone <- fmt.Errorf("panic: %v", e)
+			}
+		}()
+		r.writeDone <- r.writeFrame(idr)
+	}()
 	select {
 	case <-r.arrived:
 		r.writerHeld = true
@@ -380,6 +401,7 @@ func (r *concRunner) write(ws []string) []string {
 		return []string{"w " + r.counters()}
 	case <-time.After(r.deadline()):
 		r.setStuck()
+		r.writerStuck = true
 		r.setHold("")
 		return []string{"w blocked"}
 	}
@@ -401,6 +423,7 @@ func (r *concRunner) wrel() []string {
 		}
 	case <-time.After(r.deadline()):
 		r.setStuck()
+		r.writerStuck = true
 		return []string{"w blocked"}
 	}
 	if !r.settle(woken, base) {
